@@ -116,12 +116,42 @@ struct Runner {
         }
     }
 
-    void insert(Table &t, size_t k, u64 v) {
+    // var selects the overload; the lvalue arguments must come back unchanged
+    bool insert(Table &t, size_t k, u64 v, unsigned var = 0) {
+        bool ok = true;
         if constexpr (HasVal) {
-            t.Insert(kt.key(k), Codec::make(v));
+            using V = typename Codec::T;
+            switch (var & 3U) {
+                case 0: t.Insert(kt.key(k), Codec::make(v)); break;
+                case 1: {
+                    const Key kk = kt.key(k);
+                    t.Insert(kk, Codec::make(v));
+                    ok = (kt.index_of(kk) == k);
+                    break;
+                }
+                case 2: {
+                    const V vv = Codec::make(v);
+                    t.Insert(kt.key(k), vv);
+                    ok = (Codec::read(vv) == v);
+                    break;
+                }
+                default: {
+                    const Key kk = kt.key(k);
+                    const V   vv = Codec::make(v);
+                    t.Insert(kk, vv);
+                    ok = (kt.index_of(kk) == k) && (Codec::read(vv) == v);
+                }
+            }
         } else {
-            t.Insert(kt.key(k));
+            if ((var & 1U) != 0) {
+                const Key kk = kt.key(k);
+                t.Insert(kk);
+                ok = (kt.index_of(kk) == k);
+            } else {
+                t.Insert(kt.key(k));
+            }
         }
+        return ok;
     }
 
     std::string observe(u64 out) {
@@ -147,7 +177,9 @@ struct Runner {
                 lv.push_back(0);
             }
         }
-        // iteration through begin()/end() must visit the same slots
+        // iteration through begin()/end() (const and non-const range-for) must visit the same slots: the live
+        // entries in the same order as GetKey(i)/GetValue(i); a removed slot shows Hash == 0, the empty key and
+        // the default value
         {
             SizeT n = 0;
             for (const auto &x : static_cast<const Table &>(h)) {
@@ -155,6 +187,25 @@ struct Runner {
                 ++n;
             }
             if (n != h.Size()) lv.push_back(777779);
+            std::vector<u64> it2;
+            SizeT            m = 0;
+            for (auto &x : h) {
+                ++m;
+                if (x.Hash != 0) {
+                    it2.push_back(kt.index_of(x.Key));
+                    if constexpr (HasVal) {
+                        it2.push_back(Codec::read(x.Value));
+                    } else {
+                        it2.push_back(0);
+                    }
+                } else {
+                    if (x.Key.Length() != 0 || x.Next != 0) lv.push_back(777781);
+                    if constexpr (HasVal) {
+                        if (Codec::read(x.Value) != 0) lv.push_back(777782);
+                    }
+                }
+            }
+            if (m != h.Size() || it2 != lv) lv.push_back(777780);
         }
         grp(o, lv);
         std::vector<u64> pr, ix;
@@ -171,6 +222,7 @@ struct Runner {
                 vp      = p;
                 if (p != nullptr) v = Codec::read(*p);
                 if ((p != nullptr) != has) v = 888888;
+                if ((const void *)h.GetValue(kk) != vp) v = 888890;   // GetValue(const Key_T &)
             }
             if (has != has2 || (itk != nullptr) != has) v = 888889;
             SizeT idx = 0;
@@ -208,7 +260,16 @@ struct Runner {
         u64         out  = 0;
         const SizeT act0 = h.ActualSize();
         switch (c) {
-            case 'I': insert(h, num(1), num(2)); break;
+            case 'I':
+                if (!insert(h, num(1), num(2), (unsigned)num(3))) out = 998;
+                break;
+            case 'W': {
+                Table fresh((SizeT)num(1));   // explicit HashTable(SizeT): capacity for num(1) items, no items
+                if (fresh.Size() != 0 || (num(1) != 0 && fresh.Capacity() < num(1)) || (num(1) == 0 && fresh.Capacity() != 0)) out = 997;
+                h     = Memory::Move(fresh);
+                clean = true;
+                break;
+            }
             case 'G':
                 if constexpr (HasVal) {
                     auto &x = h.Get(kt.ptr(num(1)), kt.len(num(1)));
@@ -234,6 +295,13 @@ struct Runner {
             case 'R':
                 if (num(2) == 1) {
                     h.Remove(kt.key(num(1)));
+                } else if (num(2) == 2) {
+                    // Remove(const Char_T *): a NUL-terminated string, i.e. the key up to its first NUL
+                    std::vector<u64> z;
+                    for (SizeT q = 0; q < kt.len(num(1)); q++) z.push_back((unsigned char)kt.ptr(num(1))[q]);
+                    z.push_back(0);
+                    vf::ExactBuf<char> zb(z);
+                    h.Remove((const char *)zb.p);
                 } else {
                     h.Remove(kt.ptr(num(1)), kt.len(num(1)));
                 }
